@@ -60,6 +60,19 @@ def gen(rng):
         old = s.add({"kind": "commit", "tree": t, "parents": commits[-1:], "date": 1500000000})
         new = s.add({"kind": "commit", "tree": x, "parents": [old], "date": 1500000100})
         s.refs.append((rng.choice([b"refs/heads/moved", b"refs/heads/zz-moved", b"refs/remotes/origin/moved"]), new))
+    if rng.random() < 0.35:
+        # a reference whose name ENDS (or whose last component begins) in a non-ASCII white-space character — legal for git —
+        # holding objects seen nowhere else, next to a reference with the trimmed name that points somewhere else
+        ws = rng.choice([b"\xc2\xa0", b"\xc2\x85", b"\xe3\x80\x80", b"\xe2\x80\x83", b"\xe2\x80\xa8"])
+        stem = rng.choice([b"refs/heads/rel", b"refs/tags/cut", b"refs/remotes/origin/wide"])
+        name = stem + ws if rng.random() < 0.75 else stem.rpartition(b"/")[0] + b"/" + ws + stem.rpartition(b"/")[2]
+        bigger = s.add({"kind": "blob", "data": bytes(rng.randrange(256) for _ in range(97)) * 300})
+        lone = s.add({"kind": "tree", "entries": sorted([(0o100644, b"g%02d" % i, bigger) for i in range(rng.choice([17, 21]))], key=lambda e: e[1])})
+        commits = [i for i, o in enumerate(s.objects) if o["kind"] == "commit"]
+        tip = s.add({"kind": "commit", "tree": lone, "parents": commits[-1:], "date": 1500000200, "msg": b"m" * 3000 + b"\n"})
+        s.refs.append((name, tip))
+        if commits and name.startswith(stem):
+            s.refs.append((stem, commits[0]))
     return s.normalize()
 
 
